@@ -679,6 +679,13 @@ class OverriddenMethods(Suite):
                 return f'{case}: the method of {c}, asked directly, yields {v}; it computes {want(i)} (another method of the same name stored its value there)'
         if obs['plain'] != [['plain', 5]] * 2:
             return f'{case}: plain yields {obs["plain"]}'
+        if obs['dirs'] is not None:
+            # Model/Cached.v `method_id` / `subcache_name`: the bare name, or <class>.<method> when the name is defined more
+            # than once in the classes of the object; the version follows after a dot
+            ver = '.2' if case['method'] == 'versioned' else ''
+            names = [f'{c}.{case["method"]}{ver}' for c in order] if len(order) > 1 else [f'{case["method"]}{ver}']
+            if sorted(obs['dirs']) != sorted(names + ['plain']):
+                return f'{case}: the sub-caches are {obs["dirs"]}; by the naming rule they are {sorted(names + ["plain"])}'
         if obs['dirs'] is not None and 'plain' not in obs['dirs']:
             return f'{case}: the entries of the method `plain`, which is not overridden, are kept in {obs["dirs"]}, not under its name'
         return None
